@@ -86,6 +86,7 @@ type Sched struct {
 	Stickiness    int  // 0..100: probability of continuing with the task that ran last
 	running       bool
 	Adopted       int  // goroutines adopted at ordinary hooks
+	Points        map[string]int // how often selected hook points were passed (io.*) / a task was found blocked on a lock
 	Draining      bool // decision budget used up: finish deterministically without pre-emption
 	Stuck         bool // even draining did not finish: harness trouble, never a verdict
 }
@@ -354,7 +355,13 @@ func (s *Sched) Run() {
 		s.mu.Unlock()
 		var en []*Task
 		alive, ext := 0, 0
+		if s.Points == nil {
+			s.Points = map[string]int{}
+		}
 		for _, t := range tasks {
+			if t.state == stLock && !t.stalled && !s.lockFree(t) {
+				s.Points["blocked-on-"+t.point]++
+			}
 			if t.state != stDone && !(t.foreign && t.state == stExternal) {
 				alive++
 			}
@@ -439,6 +446,9 @@ func (s *Sched) Run() {
 			s.Preempts++
 		}
 		s.last = t
+		if strings.HasPrefix(t.point, "io.m") || t.point == "io.truncate" {
+			s.Points[t.point]++
+		}
 		s.note(t.Name, t.point)
 		s.mu.Lock()
 		t.state = stRunning
